@@ -9,6 +9,9 @@ import time
 VERIF = os.path.dirname(os.path.dirname(os.path.abspath(__file__)))
 REPO = os.environ.get("ENTRAIT_REPO", "/repo")
 CACHE = os.path.join(VERIF, ".cache")
+# scratch evaluation of a seeded change: another source tree (ENTRAIT_REPO), its own corpus/cargo cache and output dir
+WORK = os.environ.get("VERIF_WORK", CACHE)
+OUT = os.environ.get("VERIF_OUT", VERIF)
 GUARD = "audunhalland_entrait_verif"
 SYNX = os.path.join(CACHE, "target-synx", "release", "synx")
 MODEL = os.path.join(VERIF, "ocaml", "model")
